@@ -104,7 +104,11 @@ static void uv__poll_stop(uv_poll_t* handle) {
               &handle->io_watcher,
               POLLIN | POLLOUT | UV__POLLRDHUP | UV__POLLPRI);
   uv__handle_stop(handle);
-  uv__platform_invalidate_fd(handle->loop, handle->io_watcher.fd);
+  /* Another (active) poll handle may be watching the same descriptor number;
+   * its pending events and its kernel registration must be left alone.
+   */
+  if (!uv__fd_exists(handle->loop, handle->io_watcher.fd))
+    uv__platform_invalidate_fd(handle->loop, handle->io_watcher.fd);
 }
 
 
